@@ -286,7 +286,19 @@ def rule_external_flag(ck):
         ck.ob("table.external_flag", "is_external=external_info.is_some()", ok, "", f.loc())
 
 
+
+def rule_complete_walks(ck):
+    ck.rule("loop.teardown_all", "restart rewrites the pid of every active and every parked breakpoint (update_pid walks both maps completely); detach and Drop visit every tracee of the snapshot they take (try_for_each: an error ends the walk, nothing else does)")
+    rule_complete_passes(ck, "loop.teardown_all", [
+        ("debugger::breakpoint::BreakpointRegistry::update_pid", ".breakpoints", "after restart some breakpoints keep the pid of the dead process: their patches go to a process that no longer exists"),
+        ("debugger::breakpoint::BreakpointRegistry::update_pid", ".disabled_breakpoints", "after restart some parked breakpoints keep the pid of the dead process"),
+        ("debugger::Debugger::detach", "tracee_iter(", "detach leaves some threads attached"),
+        ("<debugger::Debugger as std::ops::Drop>::drop", "tracee_iter(", "quit leaves some threads attached / stopped"),
+    ])
+
+
 def run(ck):
+    rule_complete_walks(ck)
     # "detached with no hardware breakpoints": clear_all only undoes the registered watchpoints, so the image that is
     # distributed to new threads must follow every add / remove (shared with C14)
     from rules import C14
